@@ -57,6 +57,11 @@ PROPS = {
                           "symbolic port rendered as decimal text, IP peers as dotted-quad text of a symbolic address; NetworkPolicy worlds (reduced menus) and ANP/BANP worlds",
                           "CLI eval command (pkg/cli) — see C03 group cli; larger worlds", models=40),
                  thorough=ev("^ZZ_C03_", "full C01/C02 menus", "larger worlds", models=300)),
+            dict(pkg="pkg/cli", harness="harness/cli", shared="harness/shared",
+                 quick=ev("^ZZ_C03_CLI", "the eval command body (validateEvalFlags + runEvalCommand with --dirpath) on 3 pods in 2 namespaces (with/without Namespace manifests), no policy or one NetworkPolicy from the reduced C01 menus; "
+                          "queries pod->pod, IP->pod, pod->IP, pod->itself for every pod, 3 protocols, symbolic port and address as flag text; the printed verdict compared with the list side by the solver. "
+                          "Environment stubs: manifest scanner (in-memory directory; natively real files), standard output",
+                          "cobra flag parsing and process exit status (C18 N/A); live-cluster mode; admin policies through the CLI", models=40)),
         ],
     ),
     "C05": dict(
